@@ -155,6 +155,15 @@ def check(run: Run) -> None:
         ok = digits_only and width == 8 and anchored_start and anchored_end and fmt == "%Y%m%d"
         run.check("C16.R5", "date-like captures: 8 anchored digits parsed with %Y%m%d", ok, "_var_map_value", pats[0],
                   f"regex {rx!r} (width {width}, anchored {anchored_start}/{anchored_end}) and format {fmt!r} do not agree on YYYYMMDD", file=fv.file, node=pats[0])
+    elif not pats and len(fmts) == 1:
+        src = ast.unparse(fv.node)
+        len8 = any(isinstance(c, ast.Compare) and ast.unparse(c.left).startswith("len(") and len(c.comparators) == 1 and isinstance(c.comparators[0], ast.Constant) and c.comparators[0].value == 8
+                   and isinstance(c.ops[0], (ast.Eq, ast.NotEq)) for c in ast.walk(fv.node))
+        digits = ".isdigit()" in src or ".isdecimal()" in src
+        fmt = fmts[0].args[1].value if len(fmts[0].args) > 1 and isinstance(fmts[0].args[1], ast.Constant) else None
+        run.check("C16.R5", "date-like captures: exactly 8 digits parsed with %Y%m%d", len8 and digits and fmt == "%Y%m%d", "_var_map_value", fmts[0],
+                  "strptime decides alone what is date-like: %m and %d also accept one digit and %Y%m%d accepts surrounding forms the path pattern never meant as a date, so captures such as "
+                  "'202411' or '2024111' are rendered as dates (2024-01-01 / 2024-01-11) instead of as the text captured from the path", file=fv.file, node=fmts[0])
     else:
         run.undecided("C16.R5", "_var_map_value", "expected one regex test and one strptime call with literal arguments")
 
